@@ -8,6 +8,7 @@
 //!   rr    <hex>      RouteRefreshMessage::from_octets
 //!   msg   <hex>      Message::from_octets(.., None)
 //!   bopen <asn> <holdtime> <idhex> <four|-> <mp|-> <ap|-> <caps|->   OpenBuilder
+//!   bopent <n> <the eight arguments of bopen>                        OpenBuilder::from_target on a Vec that already holds n octets
 //!   bnotif <code> <sub> <datahex|none>                              NotificationBuilder
 //!   bnotifn <code> <sub> <n> <fill>                                 .. with n bytes of `fill`
 //!   bka                                                             KeepaliveBuilder
@@ -156,8 +157,14 @@ fn bopen_line(asn: u32, ht: u16, id: &[u8], four: Option<u32>, mp: &[(u16, u8)],
         l(caps.iter().map(|c| hex(c)).collect(), "/"), total)
 }
 
-fn exec_bopen(b: &BOpen) -> String {
-    let mut ob = OpenBuilder::new_vec();
+fn exec_bopen(b: &BOpen) -> String { exec_bopen_on(b, None) }
+
+/// `pre`: the builder is made by `from_target` on a Vec that already holds that many octets
+fn exec_bopen_on(b: &BOpen, pre: Option<usize>) -> String {
+    let mut ob = match pre {
+        None => OpenBuilder::new_vec(),
+        Some(n) => match OpenBuilder::from_target(vec![0xaau8; n]) { Ok(x) => x, Err(_) => return "err".into() },
+    };
     ob.set_asn(inetnum::asn::Asn::from_u32(b.asn));
     ob.set_holdtime(b.ht);
     ob.set_bgp_id(b.id);
@@ -214,6 +221,13 @@ impl C03 {
                 None => "bad-op".into(),
             },
             ["bopen", ..] => match parse_bopen(&w) { Some(b) => exec_bopen(&b), None => "bad-op".into() },
+            ["bopent", n, rest @ ..] => {
+                let mut w2 = vec!["bopen"]; w2.extend_from_slice(rest);
+                match (n.parse::<usize>(), parse_bopen(&w2)) {
+                    (Ok(k), Some(b)) if k <= 4096 && k.to_string() == *n => exec_bopen_on(&b, Some(k)),
+                    _ => "bad-op".into(),
+                }
+            }
             ["bnotif", c, s, d] => match (c.parse::<u8>(), s.parse::<u8>()) {
                 (Ok(c), Ok(s)) => {
                     let data = if *d == "none" { None } else { match hexarg(d) { Some(x) => Some(x), None => return "bad-op".into() } };
@@ -629,7 +643,12 @@ impl Prop for C03 {
             let caps: Vec<Vec<u8>> = (0..nc).map(|_| { let c = gen_code(rng); tlv(c, &gen_cap_value(rng, c)) }).collect();
             let ht = rng.edgy(65535) as u16;
             let id = rng.bytes(4);
-            v.push(bopen_line(asn, ht, &id, four, &mp, &ap, &caps));
+            let l = bopen_line(asn, ht, &id, four, &mp, &ap, &caps);
+            // one in eight: the same builder calls on a target that already holds 1..40 octets
+            if rng.chance(1, 8) && !l.contains("capbytes=2") && !l.contains("capbytes=3") {
+                v.push(format!("bopent {} {}", rng.usize(1, 40), &l[6..]));
+            }
+            v.push(l);
         }
         // near the one-octet limits: total capability bytes 240..=262 (K4 above 253)
         for total in 240..=262usize {
@@ -668,6 +687,11 @@ impl Prop for C03 {
         let w: Vec<&str> = line.split(' ').collect();
         if reply == "panic" { return Err("decoding / building panicked".into()); }
         if reply == "bad-op" { return Ok(()); }
+        // a builder made on a target that already holds octets must produce the same message
+        if let Some(rest) = line.strip_prefix("bopent ") {
+            let (_, r) = rest.split_once(' ').ok_or("bad bopent")?;
+            return self.oracle(&format!("bopen {}", r), reply).map_err(|e| format!("(from_target on a non-empty target) {}", e));
+        }
         match w.as_slice() {
             ["open", h] => {
                 let bs = unhex(h).ok_or("hex")?;
